@@ -3,8 +3,13 @@ PROP = dict(
     engines=["c30"],
     go_tags=["c30"],
     gen_files={},
+    extract_files={"MM/Gen/LockC30.lean": {"cmd": ["go", "run", "{VERIF}/tools/lockshape.go", "LockC30",
+        "{REPO}/internal/sleep/sleep.go", "Manager.Sleep,Manager.Wake,Manager.Poll", "stateMu", "state"]}},
     lean_modules=["MM.Props.C30"],
     theorems=[
+        "MM.C30.C30_tie_sections",
+        "MM.C30.C30_tie_state_under_lock",
+        "MM.C30.C30_tie_persist_under_lock",
         "MM.C30.C30_edges",
         "MM.C30.C30_refusals",
         "MM.C30.C30_persist_quiescent",
@@ -27,7 +32,9 @@ PROP = dict(
          "(not `disabled`)",
     nontrivial=lambda op, out: not out.startswith(("disabled", "ok st=AWAKE file=NONE ev=-")) and not op.startswith("reset"),
     trusted_base=[
-        "atomicity of the stateMu critical sections (sync.Mutex) is assumed: the model's atomic steps are exactly those sections",
+        "mutual exclusion of sync.Mutex is assumed; that the model's atomic steps ARE the code's critical sections is tied by regenerated "
+        "lock-shape facts (tools/lockshape.go -> MM/Gen/LockC30.lean: Sleep and Wake acquire stateMu once, Poll twice; every read and write of "
+        "`state` and every persistState call in them happens with stateMu held) and by a concurrency stress op (callbacks must alternate)",
         "scheduling point sleep.Poll.after-first-unlock (fixes/hook-sleep-poll.patch, build tag verif) and gated callbacks force the schedule; "
         "the wait between OnPoll's return and the second section has no effect on the manager and is not separately forced",
         "callbacks are assumed to return nil; the poll timer is replaced by explicit Poll() calls (PollInterval 1 h)",
@@ -49,3 +56,20 @@ PROP = dict(
         technique="Lean 4 proof (LTS invariants) + machine-checked refutation + exhaustive small-scope schedule forcing on the real code",
     ),
 )
+
+
+def extra(c):
+    """Concurrency stress on the real Manager (needs no Lean build, so it also runs when a lock-shape tie theorem broke):
+    goroutines hammer Sleep/Wake/Poll; OnSleep/OnWake must alternate and the state file must match at the end."""
+    if not c.harness:
+        return
+    ops = []
+    for k in range(6 if c.tier == "quick" else 30):
+        ops += ["reset 1", "stress 8 400 %d" % (c.seed * 100 + k)]
+    out = c.go_run("c30", ops, timeout=300)
+    bad = [i for i, o in enumerate(out) if ops[i].startswith("stress") and o != "stress-ok"]
+    c.oblige("stress:sleep-wake-poll-critical-sections", "tie", not bad, out[bad[0]] if bad else "%d stress rounds" % (len(ops) // 2))
+    if bad:
+        i = bad[0]
+        c.violate("concurrent Sleep/Wake/Poll calls break the sleep state machine: " + out[i],
+                  {"engine": "c30", "origin": "stress", "ops": ops[i - 1:i + 1], "impl_outputs": out[i - 1:i + 1]}, True)
